@@ -155,6 +155,8 @@ BOUNDS = {
              'add_line: ws 0..2 bytes, prefix 0..3 bytes, line 0..6 bytes, all 7 types; pairs (first line, next line) of (8,3),(9,4) bytes',
     'thorough': 'detect_from: 0..12 bytes + 9 symbolic bytes with one non-ASCII char; add_line: line 0..8 bytes; pairs up to (11,4)',
 }
+from . import project as _project
+BOUNDS = {k: v + _project.bounds_note('C15', k) for k, v in BOUNDS.items()}
 
 
 def replay(native, v):
